@@ -5,6 +5,7 @@
 -/
 import Driver.Asm
 import Desync.Model.ParChunk
+import Desync.Proofs.ParChunkDefs
 
 namespace Driver
 open Desync Desync.Par
@@ -34,44 +35,85 @@ def evName : Ev → String
 
 def chunksStr' (l : List Chunk) : String := String.intercalate "," (l.map fun c => s!"{c.start}:{c.size}")
 
-/-- run under a pseudo-random schedule until the main routine finishes or nothing is enabled -/
-def runRandom (e : Env) : Nat → Nat → Par.St → List String → (Par.St × List String × Bool)
-  | 0, _, s, tr => (s, tr, false)
+def evWho (nw : Nat) : Ev → Nat
+  | .produce i | .look i | .pop i | .decide i | .scan i | .pushNull i | .skip i | .stop i | .close i => i
+  | _ => nw
+
+/-- per-run weights of the workers and the main routine (index nw): 1, 2, 9 or 28 -/
+def weightOf (seed0 who : Nat) : Nat :=
+  let r := (lcg (seed0 + who * 7919 + 3) / 65536) % 4
+  1 + r * r * r
+
+def pickWeighted (l : List (Ev × Par.St)) (nw seed0 r : Nat) : Option (Ev × Par.St) :=
+  let tot := l.foldl (fun a p => a + weightOf seed0 (evWho nw p.1)) 0
+  let rec go (l : List (Ev × Par.St)) (x : Nat) : Option (Ev × Par.St) :=
+    match l with
+    | [] => none
+    | p :: rest => let w := weightOf seed0 (evWho nw p.1); if x < w then some p else go rest (x - w)
+  if tot = 0 then none else go l ((r / 65536) % tot)
+
+/-- run under a pseudo-random schedule until nothing is enabled (the workers go on after the main routine has
+    finished); the invariant is evaluated after every step.  Result: final state, trace, finished, violation -/
+def runRandom (e : Env) (zero : Nat → Bool) (seed0 : Nat) : Nat → Nat → Par.St → List String → (Par.St × List String × String)
+  | 0, _, s, tr => (s, tr, "fuel")
   | fuel + 1, rnd, s, tr =>
-    match s.main with
-    | .finished _ => (s, tr, true)
-    | _ =>
+    if !invB e zero s then (s, tr, "inv:" ++ invWhy e zero s) else
       let en := (allEvents s.workers.length).filterMap fun ev => (step e s ev).map fun s' => (ev, s')
       match en with
-      | [] => (s, tr, false)
+      | [] => (s, tr, match s.main with | .finished _ => "" | _ => "stuck")
       | _ =>
         let r := lcg rnd
-        -- bias: now and then starve the main routine / favour one worker
-        let pick := (r / 65536) % en.length
-        match en[pick]? with
-        | some (ev, s') => runRandom e fuel r s' (evName ev :: tr)
-        | none => (s, tr, false)
+        match pickWeighted en s.workers.length seed0 r with
+        | some (ev, s') => runRandom e zero seed0 fuel r s' (evName ev :: tr)
+        | none => (s, tr, "pick")
+
+def stStr (s : Par.St) : String :=
+  s!"main={repr s.main} index={chunksStr' s.index} " ++ String.intercalate " | " (s.workers.map fun w =>
+    s!"pos={w.pos} b=[{chunksStr' w.bucket}] cl={w.closed} st={w.stopped} eof={w.eof} next={w.next} sync={w.sync.start}:{w.sync.size} pc={repr w.pc}")
 
 /-- `par.fuzz size= max= n= za= zb= salt= seed= runs=` -/
 def cmdParFuzz (a : Args) : String :=
-  let e := synthEnv (a.nat "size") (a.nat "max") (a.nat "n") (a.nat "za") (a.nat "zb") (a.nat "salt")
+  let za := a.nat "za"; let zb := a.nat "zb"
+  let e := synthEnv (a.nat "size") (a.nat "max") (a.nat "n") za zb (a.nat "salt")
+  let zero := fun x => decide (za ≤ x ∧ x < zb)
   let want := seqAll e
-  let rec go (k : Nat) (seed : Nat) : String :=
+  let stat := a.bool "stat"
+  let rec go (k : Nat) (seed : Nat) (cnt : Nat) : String :=
     match k with
-    | 0 => "ok"
+    | 0 => if stat then s!"ok pushNull={cnt}" else "ok"
     | k + 1 =>
-      let (s, tr, fin) := runRandom e 100000 seed (init e) []
-      if !fin then s!"stuck seed={seed} main={repr s.main} index={chunksStr' s.index} trace={String.intercalate " " tr.reverse}"
+      let (s, tr, bad) := runRandom e zero seed 100000 seed (init e) []
+      let cnt := cnt + (tr.filter fun x => x.startsWith "pushNull").length
+      if bad != "" then s!"{bad} seed={seed} state: {stStr s} trace={String.intercalate " " tr.reverse}"
       else match s.main with
         | .finished true =>
-          if s.index == want then go k (lcg (seed + 17))
+          if s.index == want then go k (lcg (seed + 17)) cnt
           else s!"wrong seed={seed} index={chunksStr' s.index} want={chunksStr' want} trace={String.intercalate " " tr.reverse}"
         | _ => s!"error-result seed={seed} index={chunksStr' s.index} want={chunksStr' want} trace={String.intercalate " " tr.reverse}"
-  go (a.nat "runs") (a.nat "seed")
+  go (a.nat "runs") (a.nat "seed") 0
+
+/-- `par.replay size= max= n= za= zb= salt= ev=produce:0,look:0,…`: replay a schedule, print the final state and the invariant -/
+def cmdParReplay (a : Args) : String :=
+  let za := a.nat "za"; let zb := a.nat "zb"
+  let e := synthEnv (a.nat "size") (a.nat "max") (a.nat "n") za zb (a.nat "salt")
+  let zero := fun x => decide (za ≤ x ∧ x < zb)
+  let evs := (a.get "ev").splitOn ","
+  let all := allEvents e.offsets.length
+  let rec go (l : List String) (s : Par.St) : String :=
+    match l with
+    | [] => s!"end inv={invB e zero s} {invWhy e zero s} want={chunksStr' (seqAll e)} {stStr s}"
+    | x :: rest =>
+      match all.find? (fun ev => evName ev == x) with
+      | none => s!"bad event {x}"
+      | some ev => match step e s ev with
+        | none => s!"not enabled: {x} in {stStr s}"
+        | some s' => if invB e zero s' then go rest s' else s!"inv fails after {x}: {invWhy e zero s'} {stStr s'}"
+  go evs (init e)
 
 def runLine3 (l : String) : String :=
   match l.splitOn " " with
   | "par.fuzz" :: rest => cmdParFuzz (parseArgs rest)
+  | "par.replay" :: rest => cmdParReplay (parseArgs rest)
   | _ => runLine2 l
 
 end Driver
